@@ -15,6 +15,16 @@
 (* is let go; the recorded trace is then another behaviour of ExecConfigSvc.                         *)
 (* Family "heldfetch": the fetch job is held at the configuration source while both validators are    *)
 (* looked up, then the source answers and they are looked up again.                                  *)
+(* Family "callers" (fifth round; run on the WIRED instance - real block relay service, real wallet    *)
+(* account manager and validators manager, real signer, recording bid strategy / relays / nodes): every  *)
+(* entry point that resolves settings, for both validators, in four phases - all accounts held; after a   *)
+(* refresh of the account manager that lost the accounts H; after a fetch (accounts still lost); after a  *)
+(* refresh that brought them back.  ours = the accounts in the wallet store (the other validator is a      *)
+(* foreign one: only REST requests are made for it).  Inputs:                                            *)
+(*   Round(k)        a registration round / a run of the proposal preparer (one call per listed account)  *)
+(*   Call(k, v)      AuctionBlock / BuilderBid without cached bid / config check / ProposerConfig         *)
+(*   Call(.., inj)   the same with the account manager's answer replaced by an error                      *)
+(*   Refresh(S)      the account manager refreshes and finds exactly the accounts S                       *)
 EXTENDS ExecConfigSvc, Json
 
 CONSTANT Family
@@ -38,6 +48,20 @@ Held(a, b, c, v) == <<R(a), [ev |-> "Hold", v |-> v], F(b), [ev |-> "Release"],
 HeldFetch(a, b, v) == <<R(a), [ev |-> "FetchBegin", out |-> b.t, doc |-> b.doc], L(v), L(Other(v)), [ev |-> "FetchEnd"],
                         L(v), L(Other(v)), N(v)>>
 
+Docs6 == [k \in 1..6 |-> SvcDoc(k)]
+SetSeq(S) == IF S = {} THEN <<>> ELSE IF S = {"V1"} THEN <<"V1">> ELSE IF S = {"V2"} THEN <<"V2">> ELSE <<"V1", "V2">>
+RW(a, S) == [ev |-> "Reset", init |-> a, docs |-> Docs6, known |-> SetSeq(S)]
+A(S) == [ev |-> "Refresh", known |-> SetSeq(S)]
+Rd(k) == [ev |-> "Round", kind |-> k]
+C(k, v) == [ev |-> "Call", kind |-> k, v |-> v, acct |-> TRUE, inj |-> "none"]
+E(k, v) == [ev |-> "Call", kind |-> k, v |-> v, acct |-> TRUE, inj |-> "error"]
+CN(v) == [ev |-> "Call", kind |-> "direct", v |-> v, acct |-> FALSE, inj |-> "none"]
+PerV(v, ours) == IF v \in ours THEN <<C("auction", v), C("bid", v), C("check", v), C("direct", v), E("auction", v)>>
+                 ELSE <<C("bid", v), CN(v)>>
+Phase(ours) == <<Rd("reg"), Rd("prep")>> \o PerV("V1", ours) \o PerV("V2", ours) \o <<E("check", "V1")>>
+CallersHist(a, b, H, ours) ==
+    <<RW(a, ours)>> \o Phase(ours) \o <<A(ours \ H)>> \o Phase(ours) \o <<F(b)>> \o Phase(ours) \o <<A(ours)>> \o Phase(ours)
+
 SInit == Init /\ force = 0 /\ hist = <<>>
 
 SNext ==
@@ -47,6 +71,8 @@ SNext ==
          \/ Family = "hist" /\ hist' = Hist(a, b, c)
          \/ Family = "held" /\ \E v \in VIds : hist' = Held(a, b, c, v)
          \/ Family = "heldfetch" /\ c = b /\ \E v \in VIds : hist' = HeldFetch(a, b, v)
+         \/ Family = "callers" /\ c = b /\ \E ours \in {{"V1", "V2"}, {"V1"}} : \E H \in (SUBSET ours) \ {{}} :
+                hist' = CallersHist(a, b, H, ours)
 
 SSpec == SInit /\ [][SNext]_svars
 
